@@ -54,31 +54,44 @@ def name_of(eng, st, v, depth=0):
 
 
 def or_of(st, c, a, b):
-    """Is condition c the value of (a || b) on this path?  `||` short-circuits, so a path on which `a` is known true
-    yields the constant true and a path on which it is known false yields `b`."""
+    """Is condition c the value of (a || b) on this path?  Evaluated semantically: the atoms decided on the path
+    (key literals) are substituted into both sides; `||` written as short-circuit branches, as `if !x { flag = true }`
+    or as a plain `|` all compare equal."""
     if c is None:
         return False
-    if c[0] == "or" and {repr(c[1]), repr(c[2])} == {repr(a), repr(b)}:
-        return True
-    known = None
+    known = {}
     for k in st.key:
-        if k[0] == "sym" and a[0] == "sym" and k[1] == a[1]:
-            known = bool(k[2])
-    if known is True:
-        return c == ("const", True)
-    if known is False:
-        if c == b:
-            return True
-        # b itself may have been decided on this path
-        if b[0] == "not" and b[1][0] == "sym":
-            for k in st.key:
-                if k[0] == "sym" and k[1] == b[1][1]:
-                    return c == ("const", not bool(k[2]))
-        if b[0] == "sym":
-            for k in st.key:
-                if k[0] == "sym" and k[1] == b[1]:
-                    return c == ("const", bool(k[2]))
-    return False
+        if k[0] == "sym":
+            known[k[1]] = bool(k[2])
+
+    def simp(x):
+        if x[0] == "const":
+            return ("const", bool(x[1]))
+        if x[0] == "sym":
+            return ("const", known[x[1]]) if x[1] in known else x
+        if x[0] == "not":
+            y = simp(x[1])
+            return ("const", not y[1]) if y[0] == "const" else ("not", y)
+        if x[0] in ("or", "and"):
+            l, r = simp(x[1]), simp(x[2])
+            if x[0] == "or":
+                if ("const", True) in (l, r):
+                    return ("const", True)
+                if l == ("const", False):
+                    return r
+                if r == ("const", False):
+                    return l
+            else:
+                if ("const", False) in (l, r):
+                    return ("const", False)
+                if l == ("const", True):
+                    return r
+                if r == ("const", True):
+                    return l
+            return (x[0],) + tuple(sorted((l, r), key=repr))
+        return x
+
+    return simp(c) == simp(("or", a, b))
 
 
 def check(ctx):
@@ -152,67 +165,142 @@ def ld_object(eng, st, F, loc, prefix):
     return Ref(loc, (), True)
 
 
+def map_hooks(F, inserts):
+    """Hooks modelling the HashMap API on the id maps, whichever style the code uses (get_mut / insert, entry +
+    Occupied / Vacant, or_insert*): every way of obtaining `&mut LevelDistribution` for the id yields either the
+    existing entry (object obj:entry, key item ("map","hit")) or a freshly inserted value (object obj:ins,
+    ("map","miss")); insertions are recorded with the key they use."""
+    def ret(eng_, site):
+        from engine.contracts import ret_ty
+        return ret_ty(eng_, site)
+
+    def hit_miss(eng_, st):
+        s1 = st.fork()
+        s1.key = s1.key + (("map", "hit"),)
+        r = ld_object(eng_, s1, F, "obj:entry", "entry")
+        s0 = st.fork()
+        s0.key = s0.key + (("map", "miss"),)
+        return s1, r, s0
+
+    def store_inserted(eng_, st, keyname, val):
+        if isinstance(val, Top):
+            val = eng_.M.force(st, val)
+        st.locs["obj:ins"] = val
+        inserts.append((st, keyname, val))
+        return Ref("obj:ins", (), True)
+
+    def on_call(eng_, st, fr, f, args, site):
+        p = f["path"]
+        if re.search(r"HashMap::<.*>::get_mut$", p):
+            rt = ret(eng_, site)
+            s1, r, s0 = hit_miss(eng_, st)
+            o = eng_.M.force(s1, Top(rt, "getmut#%d" % eng_._hv()))
+            return [(s1, Enum(o.ty, ((1, (r,)),), "getmut")), (s0, Enum(o.ty, ((0, ()),), "getmut"))]
+        if re.search(r"HashMap::<.*>::insert$", p):
+            store_inserted(eng_, st, name_of(eng_, st, args[1]), args[2])
+            return None
+        if re.search(r"HashMap::<.*>::entry$", p):
+            rt = ret(eng_, site)
+            s1, r, s0 = hit_miss(eng_, st)
+            o = eng_.M.force(s1, Top(rt, "entry#%d" % eng_._hv()))
+            names = {eng_.T.variant_name(o.ty, vi): vi for vi, _ in o.variants}
+            kn = name_of(eng_, st, args[1])
+            occ = Struct(None, (("OCC", r),))
+            vac = Struct(None, (("VAC", kn),))
+            return [(s1, Enum(o.ty, ((names["Occupied"], (occ,)),), "entry")), (s0, Enum(o.ty, ((names["Vacant"], (vac,)),), "entry"))]
+        m = re.search(r"OccupiedEntry::<.*>::(get_mut|into_mut|get)$", p)
+        if m:
+            e = args[0]
+            if isinstance(e, Ref):
+                e = eng_.M.read_path(st, e.loc, e.path)
+            if isinstance(e, Struct) and e.fields and isinstance(e.fields[0], tuple) and e.fields[0][0] == "OCC":
+                return [(st, e.fields[0][1])]
+            return None
+        if re.search(r"VacantEntry::<.*>::insert$", p):
+            e = args[0]
+            if isinstance(e, Ref):
+                e = eng_.M.read_path(st, e.loc, e.path)
+            if isinstance(e, Struct) and e.fields and isinstance(e.fields[0], tuple) and e.fields[0][0] == "VAC":
+                return [(st, store_inserted(eng_, st, e.fields[0][1], args[1]))]
+            return None
+        m = re.search(r"Entry::<.*>::(or_insert|or_insert_with|or_default)$", p)
+        if m:
+            e = args[0]
+            if isinstance(e, Enum) and len(e.variants) == 1:
+                vn = eng_.T.variant_name(e.ty, e.variants[0][0])
+                inner = e.variants[0][1][0]
+                if vn == "Occupied" and isinstance(inner, Struct) and inner.fields[0][0] == "OCC":
+                    return [(st, inner.fields[0][1])]
+                if vn == "Vacant" and isinstance(inner, Struct) and inner.fields[0][0] == "VAC":
+                    if m.group(1) == "or_insert":
+                        v = args[1]
+                    elif m.group(1) == "or_default":
+                        v = None
+                        res = eng_.call_path(LD.replace("LevelDistribution", "LevelDistribution") and "<%s as std::default::Default>::default" % LD, [], st=st) if eng_.F.body("<%s as std::default::Default>::default" % LD) else []
+                        v = res[0][1] if len(res) == 1 else Top(eng_.T.mk_adt(LD, []), "default")
+                    else:
+                        from engine.values import Fn
+                        res = eng_.apply_fn(st, fr, args[1], [], site) if isinstance(args[1], Fn) else None
+                        v = res[0][1] if res and len(res) == 1 else Top(eng_.T.mk_adt(LD, []), "orinsert")
+                    return [(st, store_inserted(eng_, st, inner.fields[0][1], v))]
+            return None
+        return None
+
+    return on_call
+
+
 def table_add(ctx, fl):
     F, R = ctx.facts, ctx.report
     b = F.body(ADD)
     eng = Engine(F)
     eng.key_all = True
     inserts = []
-
-    def on_call(eng_, st, fr, f, args, site):
-        p = f["path"]
-        if re.search(r"HashMap::<.*>::get_mut$", p):
-            from engine.contracts import ret_ty
-            rt = ret_ty(eng_, site)
-            outs = []
-            s1 = st.fork()
-            s1.key = s1.key + (("map", "hit"),)
-            r = ld_object(eng_, s1, F, "obj:entry", "entry")
-            o = eng_.M.force(s1, Top(rt, "getmut#%d" % eng_._hv()))
-            outs.append((s1, Enum(o.ty, ((1, (r,)),), "getmut")))
-            s0 = st.fork()
-            s0.key = s0.key + (("map", "miss"),)
-            outs.append((s0, Enum(o.ty, ((0, ()),), "getmut")))
-            return outs
-        if re.search(r"HashMap::<.*>::insert$", p):
-            inserts.append((st, name_of(eng_, st, args[1]), args[2]))
-            return None
-        return None
-
-    eng.on_call = on_call
+    eng.on_call = map_hooks(F, inserts)
     outs = eng.call_path(ADD, eng.symbolic_args(b, names=["level", "ids", "id"]))
     tab = {}
+    n_miss = 0
     for st, rv in outs:
         cls = level_class(st)
         hit = any(k == ("map", "hit") for k in st.key)
+        miss = any(k == ("map", "miss") for k in st.key)
         if cls is None:
             if hit:
                 R.violation("TAB-C", ADD + "|shape", "add_for_level exit on an existing id is not partitioned by level class", function=ADD, kind="UNRECOGNISED-SHAPE")
             continue
-        if not hit:
-            continue
-        e = st.locs.get("obj:entry")
-        deltas = {}
-        for i, f in enumerate(fl):
-            v = e.fields[i]
-            d = v.lin.sub(Lin.sym("entry.%s" % f)) if isinstance(v, Int) else None
-            deltas[f] = d.c if d is not None and d.is_const() else "?"
-        inc = [f for f, d in deltas.items() if d == 1]
-        same = [f for f, d in deltas.items() if d == 0]
-        for c in cls.split("|"):
-            want = SPEC_COUNTER.get(c)
-            R.instance("TAB-C", "add_for_level(%s) on an existing id: %s" % (c, {k: v for k, v in deltas.items() if v != 0}))
-            if len(inc) == 1 and len(same) == len(fl) - 1 and inc[0] == want:
-                tab[c] = inc[0]
-                R.obligation("TAB-C", "%s|%s" % (ADD, c), "discharged", "%s += 1, other counters unchanged" % want)
-            else:
-                R.violation("TAB-C", "%s|%s" % (ADD, c), "add_for_level for level class %s changes the counters by %s; the tally needs %s += 1 and nothing else" % (c, {k: v for k, v in deltas.items() if v != 0}, want), function=ADD, file=b["span"]["f"], line=b["span"]["l"])
-    # miss branch: inserted under `id` with new(level)
+        if hit:
+            e = st.locs.get("obj:entry")
+            deltas = {}
+            for i, f in enumerate(fl):
+                v = e.fields[i]
+                d = v.lin.sub(Lin.sym("entry.%s" % f)) if isinstance(v, Int) else None
+                deltas[f] = d.c if d is not None and d.is_const() else "?"
+            inc = [f for f, d in deltas.items() if d == 1]
+            same = [f for f, d in deltas.items() if d == 0]
+            for c in cls.split("|"):
+                want = SPEC_COUNTER.get(c)
+                R.instance("TAB-C", "add_for_level(%s) on an existing id: %s" % (c, {k: v for k, v in deltas.items() if v != 0}))
+                if len(inc) == 1 and len(same) == len(fl) - 1 and inc[0] == want:
+                    tab[c] = inc[0]
+                    R.obligation("TAB-C", "%s|%s" % (ADD, c), "discharged", "%s += 1, other counters unchanged" % want)
+                else:
+                    R.violation("TAB-C", "%s|%s" % (ADD, c), "add_for_level for level class %s changes the counters by %s; the tally needs %s += 1 and nothing else" % (c, {k: v for k, v in deltas.items() if v != 0}, want), function=ADD, file=b["span"]["f"], line=b["span"]["l"])
+        elif miss:
+            # the value inserted for a new id (after any further update on this path) is the unit tally of the level
+            n_miss += 1
+            v = st.locs.get("obj:ins")
+            vals = [x.lin.c if isinstance(x, Int) and x.lin.is_const() else None for x in v.fields] if isinstance(v, Struct) else None
+            for c in cls.split("|"):
+                want = SPEC_COUNTER.get(c)
+                good = vals is not None and all((vals[i] == (1 if f == want else 0)) for i, f in enumerate(fl))
+                if good:
+                    R.obligation("TAB-C", "%s|new-id|%s" % (ADD, c), "discharged", "new id inserted with %s = 1, others 0" % want)
+                else:
+                    R.violation("TAB-C", "%s|new-id|%s" % (ADD, c), "add_for_level inserts %s for a new id with level class %s; the tally needs %s = 1 and every other counter 0" % (dict(zip(fl, vals)) if vals else v, c, want), function=ADD, file=b["span"]["f"], line=b["span"]["l"])
     ok_ins = [i for i in inserts if i[1] == "id"]
-    if inserts and len(ok_ins) == len(inserts):
+    if inserts and len(ok_ins) == len(inserts) and n_miss:
         R.obligation("TAB-C", ADD + "|insert-key", "discharged", "a missing id is inserted under that id")
     else:
-        R.violation("TAB-C", ADD + "|insert-key", "a missing id is not inserted under the id passed in (%s)" % [i[1] for i in inserts], function=ADD, file=b["span"]["f"], line=b["span"]["l"])
+        R.violation("TAB-C", ADD + "|insert-key", "a missing id is not inserted under the id passed in (insert keys: %s)" % sorted({i[1] for i in inserts}), function=ADD, file=b["span"]["f"], line=b["span"]["l"])
     missing = set(SPEC_COUNTER) - set(tab)
     if missing and not any(v["rule"] == "TAB-C" and ADD in v["key"] for v in R.violations):
         R.violation("TAB-C", ADD + "|classes", "level classes not covered by add_for_level: %s" % sorted(missing), function=ADD, kind="UNRECOGNISED-SHAPE")
@@ -263,7 +351,7 @@ def si_merge(ctx):
     for st, rv in outs:
         o = st.locs.get("obj:self")
         v = o.fields[i_flag] if isinstance(o, Struct) else None
-        c = v.cond if isinstance(v, Bool) else None
+        c = v.cond if isinstance(v, Bool) else (("sym", v.name) if isinstance(v, Top) else None)  # an untouched field is still its initial value
         ok = or_of(st, c, ("sym", "*self.contained_non_verbose"), ("sym", "stat.contained_non_verbose"))
         if ok:
             R.obligation("MERGE", SIMERGE + "|flag", "discharged", "contained_non_verbose = self || stat")
@@ -272,55 +360,73 @@ def si_merge(ctx):
 
 
 def merge_levels(ctx):
-    """Per incoming entry: merge into the entry with the same id, or append a copy; nothing is dropped."""
+    """Per incoming entry exactly one of {LevelDistribution::merge into an owner entry, push of a new entry} happens:
+    counted over every path of the per-entry code (the body of the loop over the incoming entries, or the closure handed
+    to for_each).  A path that does neither drops the entry's counts; one that does both counts them twice."""
     F, R = ctx.facts, ctx.report
-    b = F.body(MLCLOS)
-    eng = Engine(F)
-    eng.key_all = True
-    acts = []
-
-    def on_call(eng_, st, fr, f, args, site):
-        p = f["path"]
-        lp = f["resolved"] or p
-        if p.endswith("Iterator::find") or p.endswith("iter::Iterator::find"):
-            from engine.contracts import ret_ty
-            rt = ret_ty(eng_, site)
-            o = eng_.M.force(st, Top(rt, "find#%d" % eng_._hv()))
-            outs = []
-            for vi, fs in o.variants:
-                ns = st.fork()
-                ns.key = ns.key + (("find", "hit" if vi == 1 else "miss"),)
-                outs.append((ns, Enum(o.ty, ((vi, fs),), "find")))
-            return outs
-        if lp == LDMERGE:
-            st.notes = st.notes + (("act", "merge", name_of(eng_, st, args[1])),)
-            return None
-        if re.search(r"Vec::<.*>::push$", p):
-            st.notes = st.notes + (("act", "push", repr(args[1])[:300]),)
-            return None
-        return None
-
-    eng.on_call = on_call
-    outs = eng.call_path(MLCLOS, eng.symbolic_args(b, names=["env", "entry"]))
-    n = 0
-    for st, rv in outs:
-        n += 1
-        a = [x for x in st.notes if x[0] == "act"]
-        hit = any(k == ("find", "hit") for k in st.key)
-        miss = any(k == ("find", "miss") for k in st.key)
-        extra = [k for k in st.key if k[0] not in ("find", "out") and not (k[0] == "variant" and "find" in str(k[1]))]
-        desc = "find=%s actions=%s%s" % ("hit" if hit else "miss" if miss else "?", [x[1] for x in a], (" extra conditions %s" % extra) if extra else "")
-        if hit and [x[1] for x in a] == ["merge"] and not extra:
-            R.obligation("MERGE", MLCLOS + "|hit", "discharged", "existing id: merged")
-        elif miss and [x[1] for x in a] == ["push"] and not extra:
-            R.obligation("MERGE", MLCLOS + "|miss", "discharged", "new id: appended")
+    from engine import cfg
+    from rules import lib_loop
+    is_act = lambda f: (f.get("resolved") or f["path"]) == LDMERGE or f["path"] == LDMERGE or re.search(r"Vec::<.*>::push$", f["path"]) is not None
+    cands = [(MLEVELS, F.body(MLEVELS))] + [(p, F.body(p)) for p in sorted(F.bodies) if p.startswith(MLEVELS + "::{closure")]
+    region = None
+    for path, body in cands:
+        acts = [bi for bi, blk in enumerate(body["blocks"]) if not blk["cleanup"] and cfg.callee_of(blk["term"]) and is_act(cfg.callee_of(blk["term"]))]
+        if not acts:
+            continue
+        loops = [lp for lp in cfg.natural_loops(body) if any(a in lp["blocks"] for a in acts)]
+        if loops:
+            lp = max(loops, key=lambda l: len(l["blocks"]))
+            mm = lib_loop.path_call_counts(body, lp, is_act)
+            region = ("loop body of %s" % path, mm, body, path)
         else:
-            R.violation("MERGE", "%s|path|%s" % (MLCLOS, "hit" if hit else "miss" if miss else "nofind"), "merge_levels handles an incoming entry with [%s]; every entry must either be merged into the entry with the same id or appended (an entry that is skipped loses its counts)" % desc, function=MLCLOS, file=b["span"]["f"], line=b["span"]["l"])
-    R.instance("MERGE", "merge_levels closure: %d paths, each merges on hit / appends on miss" % n)
-    # the id comparison of the find predicate: owner_id == income_id
-    pb = F.body(MLCLOS + "::{closure#0}")
-    if pb is None:
-        R.violation("MERGE", MLCLOS + "|predicate", "find predicate closure not found", kind="ANCHOR-MISSING")
+            mm = entry_return_counts(body, is_act)
+            region = ("body of %s" % path, mm, body, path)
+        break
+    if region is None:
+        R.violation("MERGE", MLEVELS + "|region", "cannot find the per-entry code of merge_levels (no call of LevelDistribution::merge / Vec::push)", function=MLEVELS, kind="UNRECOGNISED-SHAPE")
+        return
+    what, mm, body, path = region
+    R.instance("MERGE", "merge_levels: per entry (%s) merge-or-push count min=%s max=%s" % (what, mm[0] if mm else None, mm[1] if mm else None))
+    if mm is not None and mm == (1, 1):
+        R.obligation("MERGE", MLEVELS + "|one-action-per-entry", "discharged", "every path handles an incoming entry by exactly one merge or push")
+    else:
+        R.violation("MERGE", "%s|path|actions=%s..%s" % (MLEVELS, mm[0] if mm else "?", mm[1] if mm else "?"), "merge_levels handles an incoming entry with %s..%s merge/push actions on some path; every entry must be merged into the entry with the same id or appended exactly once (a skipped entry loses its counts)" % (mm[0] if mm else "?", mm[1] if mm else "?"), function=path, file=body["span"]["f"], line=body["span"]["l"])
+
+
+def entry_return_counts(body, pred):
+    """(min, max) number of calls satisfying pred over all entry -> return paths of a loop-free body."""
+    from engine import cfg
+    sc = cfg.succs(body)
+    memo = {}
+    INF = float("inf")
+    stack = set()
+
+    def w(b):
+        f = cfg.callee_of(body["blocks"][b]["term"])
+        return 1 if (f is not None and pred(f)) else 0
+
+    def go(b):
+        if b in memo:
+            return memo[b]
+        if b in stack:
+            return (0, INF)
+        stack.add(b)
+        t = body["blocks"][b]["term"]
+        best = (0, 0) if t["k"] == "ret" else None
+        for s_ in sc[b]:
+            if body["blocks"][s_]["cleanup"]:
+                continue
+            r = go(s_)
+            if r is None:
+                continue
+            best = r if best is None else (min(best[0], r[0]), max(best[1], r[1]))
+        stack.discard(b)
+        if best is not None:
+            best = (best[0] + w(b), best[1] + w(b))
+        memo[b] = best
+        return best
+
+    return go(0)
 
 
 def collect_one(ctx):
@@ -359,6 +465,10 @@ def collect_one(ctx):
                 bad_level = True
             if "NONE" in idrep or "4e4f4e45" in idrep:
                 idn = "NONE"
+            else:
+                m_ = re.search(r"'(const:[^']+)'", idrep)
+                if m_ and eng.const_bytes.get(m_.group(1)) == b"NONE":
+                    idn = "NONE"
             got.append((mp, idn))
         part = "ecu=%s ext=%s" % (ecu, ext)
         if got == want and not bad_level:
@@ -368,7 +478,7 @@ def collect_one(ctx):
             R.violation("FLOW", "%s|adds|%s" % (COLLECT1, part), "collect_statistic counts the message under %s (level source ok: %s); the tally needs %s, each with the message's log level [%s]" % (got, not bad_level, want, part), function=COLLECT1, file=b["span"]["f"], line=b["span"]["l"])
         o = st.locs.get("obj:self")
         v = o.fields[i_flag] if isinstance(o, Struct) else None
-        c = v.cond if isinstance(v, Bool) else None
+        c = v.cond if isinstance(v, Bool) else (("sym", v.name) if isinstance(v, Top) else None)  # an untouched field is still its initial value
         a = ("sym", "*self.contained_non_verbose")
         nb = ("not", ("sym", "statistic.is_verbose"))
         ok = or_of(st, c, a, nb)
